@@ -1,6 +1,7 @@
 package main
 
 import (
+	"sort"
 	"errors"
 	"fmt"
 	"io"
@@ -129,3 +130,5 @@ func (c *chunkReader) Read(p []byte) (int, error) {
 	}
 	return n, nil
 }
+
+func sortStrings(s []string) { sort.Strings(s) }
